@@ -224,6 +224,10 @@ class VectorVortexCoronagraph(AgnosticOpticalElement):
         wavelength = wavefront.wavelength
         wavefront.wavelength = 1
 
+        # Keep a reference to the wavefront whose wavelength was rescaled, so that the
+        # rescaling is undone on that same object (and not on the polarized stand-in below).
+        rescaled_wavefront = wavefront
+
         for i, (jones_matrix, prop) in enumerate(zip(instance_data.jones_matrices, instance_data.props)):
             if i == 0:
                 if not wavefront.is_polarized:
@@ -241,7 +245,7 @@ class VectorVortexCoronagraph(AgnosticOpticalElement):
                 pup.electric_field += prop.backward(focal).electric_field
 
         pup.wavelength = wavelength
-        wavefront.wavelength = wavelength
+        rescaled_wavefront.wavelength = wavelength
 
         return pup
 
